@@ -676,8 +676,11 @@ func (s *Store[K, V]) sinkWrite(item WriteBufItem[K, V]) {
 	}
 
 	// ignore removed entries, except code NEW
-	// which will reset removed flag
-	if entry.flag.IsRemoved() && item.code != NEW {
+	// which will reset removed flag, and code REMOVE:
+	// an entry evicted/expired after Delete removed it from the map
+	// is not notified yet, because only the one removing the entry
+	// from the map notifies.
+	if entry.flag.IsRemoved() && item.code != NEW && item.code != REMOVE {
 		return
 	}
 
